@@ -269,7 +269,10 @@ def run(repo: Repo, rep: Report, tier: str) -> None:
 
     c13._slots(repo, _Only(rep), c)
     c13._who_constructs(repo, _Only(rep), c)
-
+    # rules of sibling properties that are necessary conditions of this one as well (same rule ids)
+    from ..core.report import Only
+    from . import c01 as _c01
+    _c01._r01_5(repo, Only(rep, {"R01.5"}))
 
 def _forwarding(repo: Repo, rep: Report) -> None:
     """R14.6: the flag lists used for re-dispatch forward every parameter under its own name."""
